@@ -48,6 +48,10 @@ def gen_script(rng, nops):
                     p = rng.pick(cand)
                     lines.append('jobdo assignid 0 #%d %d %s' % (n, p, rng.pick(['-', str(rng.range(1, 900))])))
                     comps[n].add(p)
+                if rng.chance(1, 3):
+                    # ... and destroys it again before the job ends: created and destroyed in one callback
+                    lines.append('jobdo destroynow 0 #%d' % n)
+                    comps.pop(n, None)
                 n += 1
                 lines.append('runjob %d 0' % j)
             continue
